@@ -42,6 +42,12 @@
 #ifndef VS_ROOTKIDS
 #define VS_ROOTKIDS 0             /* k > 0: only trees whose root has exactly k children; k < 0: at least -k children (splits a family over obligations) */
 #endif
+#ifndef VS_KID1_MIN
+#define VS_KID1_MIN 0             /* only trees whose element 1 has VS_KID1_MIN..VS_KID1_MAX children (second split key) */
+#endif
+#ifndef VS_KID1_MAX
+#define VS_KID1_MAX 255
+#endif
 #ifndef VS_SYMTYPES
 #define VS_SYMTYPES (!VS_ROWS)    /* physical type of every leaf symbolic 0..7 (else a fixed mix by position) */
 #endif
@@ -115,6 +121,7 @@ void harness(void) {
         e->name = pool_str(NAMES[i]);
         symx_assume(rp[i] <= 2); e->repetition_type = rp[i];
         symx_assume(nc[i] < VS_N);
+        if (i == 1) symx_assume(nc[1] >= VS_KID1_MIN && nc[1] <= VS_KID1_MAX);
         if (nc[i] == 0) {                 /* leaf (fork) */
             e->present |= REF_BIT(REF_SE_TYPE) | REF_BIT(REF_SE_TYPE_LENGTH);
             symx_assume(tl[i] >= 1 && tl[i] <= 60); e->type_length = tl[i];
